@@ -49,6 +49,10 @@ fn b2s(pr: &mut Printer, b: &B) -> String {
             let (a, c) = (pr.term(*x), pr.term(*y));
             format!("(= {} {})", a, c)
         }
+        B::Ident(x, y) => {
+            let (a, c) = (pr.term(*x), pr.term(*y));
+            if fp { format!("(or (= {0} {1}) (fp.eq {0} {1}))", a, c) } else { format!("(= {} {})", a, c) }
+        }
         B::IsNan(x) => {
             if fp { format!("(fp.isNaN {})", pr.term(*x)) } else { "false".into() }
         }
@@ -68,7 +72,7 @@ fn b2s(pr: &mut Printer, b: &B) -> String {
 fn trivial(b: &B) -> bool {
     match b {
         B::True => true,
-        B::Eq(x, y) | B::Same(x, y) => x.same(*y),
+        B::Eq(x, y) | B::Same(x, y) | B::Ident(x, y) => x.same(*y),
         B::And(xs) => xs.iter().all(trivial),
         _ => false,
     }
@@ -202,7 +206,7 @@ fn real_main() {
                 // candidate that is replayed natively or discarded)
                 let mut smt_abs = String::from("null");
                 if theory == Th::Fp && !trivial(claim) {
-                    if let B::Same(l, r) | B::Eq(l, r) = claim {
+                    if let B::Same(l, r) | B::Eq(l, r) | B::Ident(l, r) = claim {
                         let (rl, rr) = (symrt::reachable(*l), symrt::reachable(*r));
                         let shared: std::collections::HashSet<symrt::R> = rl.intersection(&rr).cloned().collect();
                         if !shared.is_empty() && !shared.contains(&l.0) && !shared.contains(&r.0) {
@@ -221,7 +225,7 @@ fn real_main() {
                 // native replay confirms or rejects (it never discharges the Float32 obligation)
                 let mut smt_real = String::from("null");
                 let mut vars_real = String::from("null");
-                if theory == Th::Fp && !trivial(claim) && matches!(claim, B::Same(..) | B::Eq(..)) {
+                if theory == Th::Fp && !trivial(claim) && matches!(claim, B::Same(..) | B::Eq(..) | B::Ident(..)) {
                     let mut pr2 = Printer::new(Theory::Real);
                     let mut body2 = pr2.assert_decisions(&path.pc);
                     body2.push_str(&pr2.assert_decisions(&path.domain));
